@@ -249,31 +249,33 @@ Proof.
   - (* LTick *)
     destruct ((d <? 0) || (nanos_max <=? now s + d - start c)) eqn:E; [discriminate|].
     apply orb_false_iff in E. destruct E as [E1 E2]. apply Z.ltb_ge in E1. apply Z.leb_gt in E2.
-    inversion Hs; subst s'; clear Hs. constructor; cbn; try assumption.
-    + pose proof (tk_mono c (now s) (now s + d) Hr ltac:(lia)). lia.
-    + lia.
-    + split; assumption.
+    inversion Hs; subst s'; clear Hs.
+    constructor; cbn;
+      [exact Irs|exact Ipm| |lia|split; assumption|exact Iq|exact Ih|exact Iph].
+    pose proof (tk_mono c (now s) (now s + d) Hr ltac:(lia)). lia.
   - (* LBegin *)
     destruct ((q <? 0) || (q >? usize_max)) eqn:E; [discriminate|].
     apply orb_false_iff in E. destruct E as [E1 E2]. apply Z.ltb_ge in E1.
     destruct (burst c <? q) eqn:E3.
-    { inversion Hs; subst s'; clear Hs. constructor; cbn; try assumption. split; assumption. }
+    { inversion Hs; subst s'; clear Hs.
+      constructor; cbn; [exact Irs|exact Ipm|exact Irt|exact Inow|split; assumption|exact Iq|exact Ih|exact Iph]. }
     apply Z.ltb_ge in E3.
     destruct (refresh c <=? 0) eqn:E4; [apply Z.leb_le in E4; lia|].
-    inversion Hs; subst s'; clear Hs. constructor; cbn; try assumption.
-    + split; assumption.
+    inversion Hs; subst s'; clear Hs.
+    constructor; cbn; [exact Irs|exact Ipm|exact Irt|exact Inow|split; assumption| | | ].
     + apply all_p_app; [exact Iq|]. intros i p [Hin|[]]. inversion Hin. subst. lia.
     + unfold holder_ok in *. cbn. destruct (queue s) as [|[h hp] qs] eqn:Eq; cbn.
       * rewrite (Iph eq_refl). exact I.
       * exact Ih.
     + intros H. destruct (queue s); [apply Iph; reflexivity|discriminate].
   - (* LWait *)
+    unfold holder_ok in Ih.
     destruct (queue s) as [|[i q] qs] eqn:Eq; [discriminate|]. destruct (ph s) eqn:Eph; [|discriminate].
     unfold usize_sub in Hs. destruct (burst c <? rs (st s)) eqn:E1; [discriminate|]. cbn [bind] in Hs.
     destruct (burst c - rs (st s) <? q) eqn:E2; [discriminate|]. apply Z.ltb_ge in E2.
     unfold usize_add in Hs. destruct (rs (st s) + q >? usize_max) eqn:E3; [discriminate|]. cbn [bind] in Hs.
-    inversion Hs; subst s'; clear Hs. constructor; cbn; try assumption.
-    + split; assumption.
+    inversion Hs; subst s'; clear Hs.
+    constructor; cbn; [exact Irs|exact Ipm|exact Irt|exact Inow|split; assumption| | | ].
     + exact Iq.
     + unfold holder_ok. cbn. split; [lia|].
       unfold usize_sat_sub. destruct (rs (st s) + q <? pm (st s)) eqn:E4.
@@ -281,65 +283,63 @@ Proof.
       * apply Z.ltb_ge in E4. lia.
     + discriminate.
   - (* LGrant *)
+    unfold holder_ok in Ih.
     destruct (queue s) as [|[i q] qs] eqn:Eq; [discriminate|]. destruct (ph s) as [|need] eqn:Eph; [discriminate|].
     destruct (deadline_reached c need (now s)) eqn:Ed; [|discriminate].
     apply deadline_reached_spec in Ed; [|lia|lia].
-    unfold holder_ok in Ih. rewrite Eq, Eph in Ih. destruct Ih as [Ih1 Ih2].
+    destruct Ih as [Ih1 Ih2].
     assert (Hq0 : 0 <= q) by (apply (Iq i q); left; reflexivity).
     rewrite (advance_spec c (st s) need) in Hs by lia.
     unfold usize_add in Hs.
     destruct (need <? rt (st s)) eqn:E1; cbn [rs pm rt] in Hs.
     + apply Z.ltb_lt in E1.
       destruct (rs (st s) + q >? usize_max) eqn:E3; [discriminate|]. cbn [bind] in Hs.
-      inversion Hs; subst s'; clear Hs. constructor; cbn; try lia.
+      inversion Hs; subst s'; clear Hs.
+      constructor; cbn; [lia|lia|lia|lia| | | |reflexivity].
       * split; [lia|]. intros j p [Hin|Hin]; [inversion Hin; subst; lia|apply (Ihp j p Hin)].
       * eapply all_p_tail. exact Iq.
       * unfold holder_ok. cbn. destruct qs as [|[? ?] ?]; exact I.
-      * reflexivity.
     + apply Z.ltb_ge in E1.
       destruct (rs (st s) + q >? usize_max) eqn:E3; [discriminate|]. cbn [bind] in Hs.
       assert (Hnt : need <= tk c (now s)).
       { destruct Ed as [Ed|Ed]; [lia|]. apply le_tk_of_mul; assumption. }
-      inversion Hs; subst s'; clear Hs. constructor; cbn; try lia.
+      inversion Hs; subst s'; clear Hs.
+      constructor; cbn; [lia|lia|lia|lia| | | |reflexivity].
       * split; [lia|]. intros j p [Hin|Hin]; [inversion Hin; subst; lia|apply (Ihp j p Hin)].
       * eapply all_p_tail. exact Iq.
       * unfold holder_ok. cbn. destruct qs as [|[? ?] ?]; exact I.
-      * reflexivity.
   - (* LCancel *)
+    unfold holder_ok in Ih.
     destruct (queue s) as [|[h hp] qs] eqn:Eq.
     { destruct (mem_nat id (blocked s)); [|discriminate]. inversion Hs; subst s'; clear Hs.
-      constructor; cbn; try assumption.
-      - split; assumption.
-      - rewrite Eq. exact Iq.
-      - unfold holder_ok in *. cbn. rewrite Eq in *. exact Ih.
+      constructor; cbn; [exact Irs|exact Ipm|exact Irt|exact Inow|split; assumption| | | ].
+      - exact Iq.
+      - unfold holder_ok. cbn. exact Ih.
       - intros _. apply Iph. reflexivity. }
     destruct (Nat.eqb h id).
-    { inversion Hs; subst s'; clear Hs. constructor; cbn; try assumption.
-      - split; assumption.
+    { inversion Hs; subst s'; clear Hs.
+      constructor; cbn; [exact Irs|exact Ipm|exact Irt|exact Inow|split; assumption| | |reflexivity].
       - eapply all_p_tail. exact Iq.
-      - unfold holder_ok. cbn. destruct qs as [|[? ?] ?]; exact I.
-      - reflexivity. }
+      - unfold holder_ok. cbn. destruct qs as [|[? ?] ?]; exact I. }
     destruct (find_id id qs) eqn:Ef.
-    { inversion Hs; subst s'; clear Hs. constructor; cbn; try assumption.
-      - split; assumption.
+    { inversion Hs; subst s'; clear Hs.
+      constructor; cbn; [exact Irs|exact Ipm|exact Irt|exact Inow|split; assumption| | |discriminate].
       - intros j p [Hin|Hin]; [apply (Iq j p); left; exact Hin|].
         apply (Iq j p). right. eapply in_remove_id. exact Hin.
-      - unfold holder_ok in *. cbn. exact Ih.
-      - discriminate. }
+      - unfold holder_ok. cbn. exact Ih. }
     destruct (mem_nat id (blocked s)); [|discriminate]. inversion Hs; subst s'; clear Hs.
-    constructor; cbn; try assumption.
-    + split; assumption.
-    + rewrite Eq. exact Iq.
-    + unfold holder_ok in *. cbn. rewrite Eq in *. exact Ih.
-    + rewrite Eq. discriminate.
+    constructor; cbn; [exact Irs|exact Ipm|exact Irt|exact Inow|split; assumption| | | ].
+    + exact Iq.
+    + unfold holder_ok. cbn. exact Ih.
+    + discriminate.
   - (* LDrop *)
     destruct (find_id id (held s)) as [q|] eqn:Ef; [|discriminate].
     pose proof (sum_p_ge _ _ _ Ihp (find_id_in _ _ _ Ef)) as Hq.
     assert (Hq0 : 0 <= q) by (apply (Ihp id q), find_id_in, Ef).
     destruct (q =? 0) eqn:E0.
-    { apply Z.eqb_eq in E0. inversion Hs; subst s'; clear Hs. constructor; cbn; try assumption.
-      - split; [rewrite (sum_p_remove _ _ _ Ef); lia|apply all_p_remove; exact Ihp].
-      - exact Ih. }
+    { apply Z.eqb_eq in E0. inversion Hs; subst s'; clear Hs.
+      constructor; cbn; [exact Irs|exact Ipm|exact Irt|exact Inow| |exact Iq|exact Ih|exact Iph].
+      split; [rewrite (sum_p_remove _ _ _ Ef); lia|apply all_p_remove; exact Ihp]. }
     apply Z.eqb_neq in E0.
     rewrite (advance_spec c (st s) (ticks c (now s))) in Hs by lia.
     rewrite ticks_tk in Hs by lia.
@@ -347,10 +347,929 @@ Proof.
     apply Z.ltb_ge in E1. cbn [rs pm rt] in Hs. unfold usize_sub in Hs.
     destruct (rs (st s) <? q) eqn:E2; [discriminate|]. cbn [bind] in Hs.
     destruct (Z.min (pm (st s) + (tk c (now s) - rt (st s))) (burst c) <? q) eqn:E3; [discriminate|].
-    cbn [bind] in Hs. inversion Hs; subst s'; clear Hs. constructor; cbn; try lia.
+    cbn [bind] in Hs. inversion Hs; subst s'; clear Hs.
+    constructor; cbn; [lia|lia|lia|lia| |exact Iq| |exact Iph].
     + split; [rewrite (sum_p_remove _ _ _ Ef); lia|apply all_p_remove; exact Ihp].
-    + exact Iq.
     + unfold holder_ok in *. cbn. destruct (queue s) as [|[h hp] qs]; [exact I|].
       destruct (ph s) as [|need]; [exact I|]. lia.
-    + exact Iph.
+Qed.
+
+(* ------------------------------------------------------------------------- *)
+(* runs *)
+
+Lemma exec_app : forall c ls1 ls2 s s1, exec c s ls1 = Ok s1 -> exec c s (ls1 ++ ls2) = exec c s1 ls2.
+Proof.
+  induction ls1 as [|l ls1 IH]; intros ls2 s s1 H; cbn [exec app] in *.
+  - inversion H. reflexivity.
+  - destruct (step c s l) as [s'|e|p]; [apply IH; exact H|apply IH; exact H|discriminate].
+Qed.
+
+Lemma exec_not_err : forall c ls s e, exec c s ls <> Err e.
+Proof.
+  induction ls as [|l ls IH]; intros s e H; cbn [exec] in H; [discriminate|].
+  destruct (step c s l); [eapply IH; exact H|eapply IH; exact H|discriminate].
+Qed.
+
+Lemma exec_inv : forall c ls s s', cfg_ok c -> inv c s -> exec c s ls = Ok s' -> inv c s'.
+Proof.
+  induction ls as [|l ls IH]; intros s s' Hc I H; cbn [exec] in H.
+  - inversion H. subst. exact I.
+  - destruct (step c s l) as [s1|e|p] eqn:Es.
+    + eapply IH; [exact Hc| |exact H]. eapply step_inv; eassumption.
+    + eapply IH; eassumption.
+    + discriminate.
+Qed.
+
+Lemma exec_no_panic : forall c ls s p, cfg_ok c -> inv c s -> exec c s ls <> Panic p.
+Proof.
+  induction ls as [|l ls IH]; intros s p Hc I H; cbn [exec] in H; [discriminate|].
+  destruct (step c s l) as [s1|e|q] eqn:Es.
+  - eapply IH; [exact Hc| |exact H]. eapply step_inv; eassumption.
+  - eapply IH; eassumption.
+  - eapply step_no_panic; eassumption.
+Qed.
+
+(* ------------------------------------------------------------------------- *)
+(* What a step does to the quantities the bounds are about. *)
+
+Definition eff_none (c : cfg) (s s' : sys) : Prop :=
+  st s' = st s /\ now s <= now s' /\ grants s' = grants s /\ drops s' = drops s.
+Definition eff_grant (c : cfg) (s s' : sys) : Prop :=
+  now s' = now s /\ drops s' = drops s /\
+  exists id p q', queue s = (id, p) :: q' /\ queue s' = q' /\
+    grants s' = (id, now s, p) :: grants s /\ 0 <= p /\
+    rs (st s') = rs (st s) + p /\ avail c s' = avail c s /\ rt (st s) <= rt (st s').
+Definition eff_drop (c : cfg) (s s' : sys) : Prop :=
+  now s' = now s /\ grants s' = grants s /\
+  exists id p, drops s' = (id, now s, p) :: drops s /\ 0 < p /\
+    rs (st s') = rs (st s) - p /\ avail c s' = avail c s - p /\ rt (st s) <= rt (st s').
+
+Lemma step_effect : forall c s l s', cfg_ok c -> inv c s -> step c s l = Ok s' ->
+  eff_none c s s' \/ (l = LGrant /\ eff_grant c s s') \/ (exists id, l = LDrop id /\ eff_drop c s s').
+Proof.
+  intros c s l s' [Hb Hr] I Hs. destruct I as [Irs Ipm Irt Inow [Iheld Ihp] Iq Ih Iph].
+  destruct l as [d|q| | |id|id]; cbn [step] in Hs.
+  - destruct ((d <? 0) || (nanos_max <=? now s + d - start c)) eqn:E; [discriminate|].
+    apply orb_false_iff in E. destruct E as [E1 E2]. apply Z.ltb_ge in E1.
+    inversion Hs; subst s'; clear Hs.
+    left. unfold eff_none; cbn. repeat split; try reflexivity. lia.
+  - destruct ((q <? 0) || (q >? usize_max)) eqn:E; [discriminate|].
+    destruct (burst c <? q) eqn:E3.
+    { inversion Hs; subst s'; clear Hs. left. unfold eff_none; cbn. repeat split; try reflexivity; lia. }
+    destruct (refresh c <=? 0) eqn:E4; [apply Z.leb_le in E4; lia|].
+    inversion Hs; subst s'; clear Hs. left. unfold eff_none; cbn. repeat split; try reflexivity; lia.
+  - destruct (queue s) as [|[i q] qs] eqn:Eq; [discriminate|]. destruct (ph s) eqn:Eph; [|discriminate].
+    unfold usize_sub in Hs. destruct (burst c <? rs (st s)) eqn:E1; [discriminate|]. cbn [bind] in Hs.
+    destruct (burst c - rs (st s) <? q) eqn:E2; [discriminate|].
+    unfold usize_add in Hs. destruct (rs (st s) + q >? usize_max) eqn:E3; [discriminate|]. cbn [bind] in Hs.
+    inversion Hs; subst s'; clear Hs. left. unfold eff_none; cbn. repeat split; try reflexivity; lia.
+  - unfold holder_ok in Ih.
+    destruct (queue s) as [|[i q] qs] eqn:Eq; [discriminate|]. destruct (ph s) as [|need] eqn:Eph; [discriminate|].
+    destruct (deadline_reached c need (now s)) eqn:Ed; [|discriminate].
+    apply deadline_reached_spec in Ed; [|lia|lia].
+    destruct Ih as [Ih1 Ih2].
+    assert (Hq0 : 0 <= q) by (apply (Iq i q); left; reflexivity).
+    rewrite (advance_spec c (st s) need) in Hs by lia.
+    unfold usize_add in Hs.
+    destruct (need <? rt (st s)) eqn:E1; cbn [rs pm rt] in Hs.
+    + destruct (rs (st s) + q >? usize_max) eqn:E3; [discriminate|]. cbn [bind] in Hs.
+      inversion Hs; subst s'; clear Hs. right. left. split; [reflexivity|].
+      unfold eff_grant; cbn. split; [reflexivity|]. split; [reflexivity|].
+      exists i, q, qs. repeat split; try reflexivity; try exact Eq; cbn; lia.
+    + apply Z.ltb_ge in E1.
+      destruct (rs (st s) + q >? usize_max) eqn:E3; [discriminate|]. cbn [bind] in Hs.
+      assert (Hnt : need <= tk c (now s)).
+      { destruct Ed as [Ed|Ed]; [lia|]. apply le_tk_of_mul; assumption. }
+      inversion Hs; subst s'; clear Hs. right. left. split; [reflexivity|].
+      unfold eff_grant; cbn. split; [reflexivity|]. split; [reflexivity|].
+      exists i, q, qs. repeat split; try reflexivity; try exact Eq; cbn; try lia.
+      unfold avail; cbn. lia.
+  - destruct (queue s) as [|[h hp] qs] eqn:Eq.
+    { destruct (mem_nat id (blocked s)); [|discriminate]. inversion Hs; subst s'; clear Hs.
+      left. unfold eff_none; cbn. repeat split; try reflexivity; lia. }
+    destruct (Nat.eqb h id).
+    { inversion Hs; subst s'; clear Hs. left. unfold eff_none; cbn. repeat split; try reflexivity; lia. }
+    destruct (find_id id qs) eqn:Ef.
+    { inversion Hs; subst s'; clear Hs. left. unfold eff_none; cbn. repeat split; try reflexivity; lia. }
+    destruct (mem_nat id (blocked s)); [|discriminate]. inversion Hs; subst s'; clear Hs.
+    left. unfold eff_none; cbn. repeat split; try reflexivity; lia.
+  - destruct (find_id id (held s)) as [q|] eqn:Ef; [|discriminate].
+    pose proof (sum_p_ge _ _ _ Ihp (find_id_in _ _ _ Ef)) as Hq.
+    assert (Hq0 : 0 <= q) by (apply (Ihp id q), find_id_in, Ef).
+    destruct (q =? 0) eqn:E0.
+    { inversion Hs; subst s'; clear Hs. left. unfold eff_none; cbn. repeat split; try reflexivity; lia. }
+    apply Z.eqb_neq in E0.
+    rewrite (advance_spec c (st s) (ticks c (now s))) in Hs by lia.
+    rewrite ticks_tk in Hs by lia.
+    destruct (tk c (now s) <? rt (st s)) eqn:E1; [apply Z.ltb_lt in E1; lia|].
+    apply Z.ltb_ge in E1. cbn [rs pm rt] in Hs. unfold usize_sub in Hs.
+    destruct (rs (st s) <? q) eqn:E2; [discriminate|]. cbn [bind] in Hs.
+    destruct (Z.min (pm (st s) + (tk c (now s) - rt (st s))) (burst c) <? q) eqn:E3; [discriminate|].
+    apply Z.ltb_ge in E3.
+    cbn [bind] in Hs. inversion Hs; subst s'; clear Hs.
+    right. right. exists id. split; [reflexivity|]. unfold eff_drop; cbn.
+    split; [reflexivity|]. split; [reflexivity|]. exists id, q.
+    repeat split; try reflexivity; cbn; try lia. unfold avail; cbn. lia.
+Qed.
+
+(* ------------------------------------------------------------------------- *)
+(* Window bound, generically for a time-stamped log and a potential. *)
+
+Definition tlog := list (nat * Z * Z).
+
+Fixpoint sum_from (g : tlog) (t1 : Z) : Z :=
+  match g with
+  | [] => 0
+  | (_, t, p) :: g' => (if t1 <=? t then p else 0) + sum_from g' t1
+  end.
+
+(* permits of the entries with time stamp in the closed window [t1, t2] *)
+Fixpoint sum_window (g : tlog) (t1 t2 : Z) : Z :=
+  match g with
+  | [] => 0
+  | (_, t, p) :: g' => (if (t1 <=? t) && (t <=? t2) then p else 0) + sum_window g' t1 t2
+  end.
+
+Definition times_le (g : tlog) (t : Z) : Prop := forall i u p, In (i, u, p) g -> u <= t /\ 0 <= p.
+
+Lemma sum_from_future : forall g t t1, times_le g t -> t < t1 -> sum_from g t1 = 0.
+Proof.
+  induction g as [|[[i u] p] g IH]; intros t t1 H Ht; cbn [sum_from]; [reflexivity|].
+  destruct (H i u p (or_introl eq_refl)) as [Hu _].
+  destruct (t1 <=? u) eqn:E; [apply Z.leb_le in E; lia|].
+  rewrite (IH t t1); [reflexivity| |exact Ht]. intros j v q Hin. apply (H j v q). right. exact Hin.
+Qed.
+
+Lemma sum_window_from : forall g t t1 t2, times_le g t -> t <= t2 -> sum_window g t1 t2 = sum_from g t1.
+Proof.
+  induction g as [|[[i u] p] g IH]; intros t t1 t2 H Ht; cbn [sum_from sum_window]; [reflexivity|].
+  destruct (H i u p (or_introl eq_refl)) as [Hu _].
+  rewrite (IH t t1 t2); [| |exact Ht].
+  - destruct (t1 <=? u); cbn [andb]; [|reflexivity].
+    destruct (u <=? t2) eqn:E; [reflexivity|apply Z.leb_gt in E; lia].
+  - intros j v q Hin. apply (H j v q). right. exact Hin.
+Qed.
+
+Section Window.
+  Variable c : cfg.
+  Hypothesis Hc : cfg_ok c.
+  Variable log : sys -> tlog.
+  Variable pot : sys -> Z.
+  Hypothesis pot_range : forall s, inv c s -> 0 <= pot s <= burst c.
+  Hypothesis log_init : log (init c) = [].
+  Hypothesis step_log : forall s l s', inv c s -> step c s l = Ok s' ->
+    (log s' = log s /\ now s <= now s' /\ pot s' <= pot s + (tk c (now s') - tk c (now s))) \/
+    (exists id p, log s' = (id, now s, p) :: log s /\ now s' = now s /\ 0 <= p /\ pot s' + p <= pot s).
+
+  Definition win_inv (s : sys) : Prop :=
+    times_le (log s) (now s) /\
+    (forall t1, start c <= t1 <= now s ->
+       sum_from (log s) t1 + pot s <= burst c + tk c (now s) - tk c t1) /\
+    (forall t1 t2, start c <= t1 <= t2 ->
+       sum_window (log s) t1 t2 <= burst c + tk c t2 - tk c t1).
+
+  Lemma win_init : win_inv (init c).
+  Proof.
+    destruct Hc as [Hb Hr]. unfold win_inv. rewrite log_init. split; [intros i u p []|]. split.
+    - intros t1 Ht. cbn [sum_from]. pose proof (pot_range _ (inv_init c Hc)) as Hp. cbn [now init] in *.
+      assert (t1 = start c) by lia. subst t1. lia.
+    - intros t1 t2 Ht. cbn [sum_window]. pose proof (tk_mono c t1 t2 Hr ltac:(lia)). lia.
+  Qed.
+
+  Lemma win_step : forall s l s', inv c s -> win_inv s -> step c s l = Ok s' -> win_inv s'.
+  Proof.
+    intros s l s' I [Wt [Wf Ww]] Hs. destruct Hc as [Hb Hr].
+    pose proof (step_inv c s l s' Hc I Hs) as I'.
+    pose proof (pot_range _ I') as Hp'. pose proof (pot_range _ I) as Hp.
+    destruct (step_log s l s' I Hs) as [(Hl & Hn & Hpot)|(id & p & Hl & Hn & Hp0 & Hpot)].
+    - unfold win_inv. rewrite Hl. split; [|split].
+      + intros i u q Hin. destruct (Wt i u q Hin). split; lia.
+      + intros t1 Ht. destruct (Z_le_gt_dec t1 (now s)) as [Hle|Hgt].
+        * pose proof (Wf t1 ltac:(lia)). lia.
+        * rewrite (sum_from_future (log s) (now s) t1 Wt ltac:(lia)).
+          pose proof (tk_mono c t1 (now s') Hr ltac:(lia)). lia.
+      + exact Ww.
+    - assert (Wt' : times_le (log s') (now s')).
+      { rewrite Hl, Hn. intros i u q [Hin|Hin]; [inversion Hin; subst; lia|]. apply (Wt i u q Hin). }
+      assert (Wf' : forall t1, start c <= t1 <= now s' ->
+                sum_from (log s') t1 + pot s' <= burst c + tk c (now s') - tk c t1).
+      { intros t1 Ht. rewrite Hl, Hn in *. cbn [sum_from].
+        destruct (t1 <=? now s) eqn:E; [|apply Z.leb_gt in E; lia].
+        pose proof (Wf t1 Ht). lia. }
+      split; [exact Wt'|]. split; [exact Wf'|].
+      intros t1 t2 Ht. destruct ((t1 <=? now s) && (now s <=? t2)) eqn:E.
+      + apply andb_true_iff in E. destruct E as [E1 E2]. apply Z.leb_le in E1. apply Z.leb_le in E2.
+        rewrite (sum_window_from (log s') (now s') t1 t2 Wt' ltac:(lia)).
+        pose proof (Wf' t1 ltac:(lia)). pose proof (tk_mono c (now s') t2 Hr ltac:(lia)). lia.
+      + rewrite Hl. cbn [sum_window]. rewrite E. pose proof (Ww t1 t2 Ht). lia.
+  Qed.
+
+  Lemma win_exec : forall ls s s', inv c s -> win_inv s -> exec c s ls = Ok s' -> win_inv s'.
+  Proof.
+    induction ls as [|l ls IH]; intros s s' I W H; cbn [exec] in H.
+    - inversion H. subst. exact W.
+    - destruct (step c s l) as [s1|e|p] eqn:Es.
+      + eapply IH; [| |exact H]; [eapply step_inv; eassumption|eapply win_step; eassumption].
+      + eapply IH; eassumption.
+      + discriminate.
+  Qed.
+
+  Lemma window_generic : forall ls s t1 t2, exec c (init c) ls = Ok s -> start c <= t1 <= t2 ->
+    sum_window (log s) t1 t2 <= burst c + (t2 - t1) / refresh c + 1.
+  Proof.
+    intros ls s t1 t2 H Ht. destruct Hc as [Hb Hr].
+    destruct (win_exec ls (init c) s (inv_init c Hc) win_init H) as [_ [_ Ww]].
+    pose proof (Ww t1 t2 Ht). pose proof (tk_window c t1 t2 Hr ltac:(lia)). lia.
+  Qed.
+End Window.
+
+Lemma avail_range : forall c s, cfg_ok c -> inv c s -> rs (st s) <= avail c s <= burst c.
+Proof.
+  intros c s [Hb Hr] I. destruct I as [Irs Ipm Irt Inow Iheld Iq Ih Iph]. unfold avail. lia.
+Qed.
+
+(* avail rises by at most the number of elapsed ticks *)
+Lemma avail_tick : forall c s s', 0 < refresh c -> st s' = st s -> now s <= now s' ->
+  avail c s' <= avail c s + (tk c (now s') - tk c (now s)).
+Proof.
+  intros c s s' Hr Hst Hn. unfold avail. rewrite Hst. pose proof (tk_mono c _ _ Hr Hn). lia.
+Qed.
+
+(* permits granted in any window *)
+Theorem window_bound : forall c ls s t1 t2, cfg_ok c -> exec c (init c) ls = Ok s ->
+  start c <= t1 <= t2 ->
+  sum_window (grants s) t1 t2 <= burst c + (t2 - t1) / refresh c + 1.
+Proof.
+  intros c ls s t1 t2 Hc H Ht.
+  apply (window_generic c Hc grants (fun s => avail c s - rs (st s))) with (ls := ls); try assumption.
+  - intros x I. pose proof (avail_range c x Hc I). destruct I. lia.
+  - reflexivity.
+  - intros x l x' I Hs. destruct (step_effect c x l x' Hc I Hs) as [E|[[_ E]|[id [_ E]]]].
+    + destruct E as (E1 & E2 & E3 & E4). left. split; [exact E3|]. split; [exact E2|].
+      pose proof (avail_tick c x x' (proj2 Hc) E1 E2). rewrite E1. lia.
+    + destruct E as (E1 & E2 & id & p & q' & E3 & E4 & E5 & E6 & E7 & E8 & E9). right.
+      exists id, p. split; [exact E5|]. split; [exact E1|]. split; [exact E6|]. lia.
+    + destruct E as (E1 & E2 & i & p & E3 & E4 & E5 & E6 & E7). left. split; [exact E2|]. split; [lia|].
+      rewrite E1. lia.
+Qed.
+
+(* permits consumed (dropped) in any window *)
+Theorem consume_window_bound : forall c ls s t1 t2, cfg_ok c -> exec c (init c) ls = Ok s ->
+  start c <= t1 <= t2 ->
+  sum_window (drops s) t1 t2 <= burst c + (t2 - t1) / refresh c + 1.
+Proof.
+  intros c ls s t1 t2 Hc H Ht.
+  apply (window_generic c Hc drops (fun s => avail c s)) with (ls := ls); try assumption.
+  - intros x I. pose proof (avail_range c x Hc I). destruct I. lia.
+  - reflexivity.
+  - intros x l x' I Hs. destruct (step_effect c x l x' Hc I Hs) as [E|[[_ E]|[id [_ E]]]].
+    + destruct E as (E1 & E2 & E3 & E4). left. split; [exact E4|]. split; [exact E2|].
+      apply (avail_tick c x x' (proj2 Hc) E1 E2).
+    + destruct E as (E1 & E2 & id & p & q' & E3 & E4 & E5 & E6 & E7 & E8 & E9). left.
+      split; [exact E2|]. split; [lia|]. rewrite E1. lia.
+    + destruct E as (E1 & E2 & i & p & E3 & E4 & E5 & E6 & E7). right.
+      exists i, p. split; [exact E3|]. split; [exact E1|]. split; [lia|]. lia.
+Qed.
+
+(* ------------------------------------------------------------------------- *)
+(* limiter_inv as a statement about runs *)
+
+Lemma step_rt_mono : forall c s l s', cfg_ok c -> inv c s -> step c s l = Ok s' -> rt (st s) <= rt (st s').
+Proof.
+  intros c s l s' Hc I Hs. destruct (step_effect c s l s' Hc I Hs) as [E|[[_ E]|[id [_ E]]]].
+  - destruct E as (E1 & _). rewrite E1. lia.
+  - destruct E as (_ & _ & id & p & q' & _ & _ & _ & _ & _ & _ & E9). exact E9.
+  - destruct E as (_ & _ & i & p & _ & _ & _ & _ & E7). exact E7.
+Qed.
+
+Lemma exec_rt_mono : forall c ls s s', cfg_ok c -> inv c s -> exec c s ls = Ok s' -> rt (st s) <= rt (st s').
+Proof.
+  induction ls as [|l ls IH]; intros s s' Hc I H; cbn [exec] in H.
+  - inversion H. lia.
+  - destruct (step c s l) as [s1|e|p] eqn:Es; [|eapply IH; eassumption|discriminate].
+    pose proof (step_rt_mono c s l s1 Hc I Es). pose proof (step_inv c s l s1 Hc I Es) as I1.
+    pose proof (IH s1 s' Hc I1 H). lia.
+Qed.
+
+Theorem limiter_inv : forall c ls, cfg_ok c ->
+  (forall p, exec c (init c) ls <> Panic p) /\
+  (forall s, exec c (init c) ls = Ok s ->
+     0 <= rs (st s) <= pm (st s) /\ pm (st s) <= burst c /\
+     0 <= rt (st s) <= ticks c (now s) /\ rs (st s) = sum_p (held s)).
+Proof.
+  intros c ls Hc. split.
+  - intros p. apply exec_no_panic; [exact Hc|apply inv_init; exact Hc].
+  - intros s H. pose proof (exec_inv c ls (init c) s Hc (inv_init c Hc) H) as I.
+    destruct I as [Irs Ipm Irt Inow [Iheld Ihp] Iq Ih Iph].
+    rewrite ticks_tk by (destruct Hc; lia). repeat split; try lia.
+Qed.
+
+(* refresh_ticks never decreases along a run *)
+Theorem refresh_ticks_monotone : forall c ls1 ls2 s1 s2, cfg_ok c ->
+  exec c (init c) ls1 = Ok s1 -> exec c s1 ls2 = Ok s2 -> rt (st s1) <= rt (st s2).
+Proof.
+  intros c ls1 ls2 s1 s2 Hc H1 H2. eapply exec_rt_mono; [exact Hc| |exact H2].
+  eapply exec_inv; [exact Hc|apply inv_init; exact Hc|exact H1].
+Qed.
+
+(* ------------------------------------------------------------------------- *)
+(* FIFO order of grants *)
+
+From Coq Require Import Sorted.
+
+Definition gid (g : nat * Z * Z) : nat := fst (fst g).
+Definition gtime (g : nat * Z * Z) : Z := snd (fst g).
+
+(* newest first: every older entry has a smaller id (entered acquire earlier) and a time stamp
+   that is not later *)
+Definition grant_order (a b : nat * Z * Z) : Prop := (gid b < gid a)%nat /\ gtime b <= gtime a.
+
+Record fifo_inv (s : sys) : Prop := {
+  fi_sorted : StronglySorted lt (map fst (queue s));
+  fi_lt : forall i p, In (i, p) (queue s) -> (i < nextid s)%nat;
+  fi_glt : forall g, In g (grants s) ->
+      (gid g < nextid s)%nat /\ gtime g <= now s /\ forall j q, In (j, q) (queue s) -> (gid g < j)%nat;
+  fi_gsorted : StronglySorted grant_order (grants s)
+}.
+
+Lemma sorted_app_last : forall (q : list (nat * Z)) n p,
+  StronglySorted lt (map fst q) -> (forall i r, In (i, r) q -> (i < n)%nat) ->
+  StronglySorted lt (map fst (q ++ [(n, p)])).
+Proof.
+  induction q as [|[i r] q IH]; intros n p Hs Hl; cbn [map app fst].
+  - constructor; [constructor|constructor].
+  - inversion Hs as [|x l Hs' Hf]; subst. constructor.
+    + apply IH; [exact Hs'|]. intros j t Hin. apply (Hl j t). right. exact Hin.
+    + rewrite map_app. apply Forall_app. split; [exact Hf|]. cbn. constructor; [|constructor].
+      apply (Hl i r). left. reflexivity.
+Qed.
+
+Lemma in_map_fst_remove : forall id (q : list (nat * Z)) x, In x (map fst (remove_id id q)) -> In x (map fst q).
+Proof.
+  intros id q x H. apply in_map_iff in H. destruct H as [[i p] [H1 H2]]. apply in_map_iff.
+  exists (i, p). split; [exact H1|]. eapply in_remove_id. exact H2.
+Qed.
+
+Lemma sorted_remove : forall id (q : list (nat * Z)),
+  StronglySorted lt (map fst q) -> StronglySorted lt (map fst (remove_id id q)).
+Proof.
+  induction q as [|[i r] q IH]; intros Hs; cbn [remove_id]; [exact Hs|].
+  cbn [map fst] in Hs. inversion Hs as [|x l Hs' Hf]; subst.
+  destruct (Nat.eqb i id); [exact Hs'|]. cbn [map fst]. constructor; [apply IH; exact Hs'|].
+  apply Forall_forall. intros x Hx. rewrite Forall_forall in Hf. apply Hf. eapply in_map_fst_remove. exact Hx.
+Qed.
+
+Lemma fifo_init : forall c, fifo_inv (init c).
+Proof.
+  intros c. constructor; cbn.
+  - constructor.
+  - intros i p [].
+  - intros g [].
+  - constructor.
+Qed.
+
+Lemma fifo_step : forall c s l s', cfg_ok c -> fifo_inv s -> step c s l = Ok s' -> fifo_inv s'.
+Proof.
+  intros c s l s' [Hb Hr] [Fs Fl Fg Fgs] Hs.
+  destruct l as [d|q| | |id|id]; cbn [step] in Hs.
+  - destruct ((d <? 0) || (nanos_max <=? now s + d - start c)) eqn:E; [discriminate|].
+    apply orb_false_iff in E. destruct E as [E1 E2]. apply Z.ltb_ge in E1.
+    inversion Hs; subst s'; clear Hs. constructor; cbn; [exact Fs|exact Fl| |exact Fgs].
+    intros g Hg. destruct (Fg g Hg) as (G1 & G2 & G3). split; [exact G1|]. split; [lia|exact G3].
+  - destruct ((q <? 0) || (q >? usize_max)) eqn:E; [discriminate|].
+    destruct (burst c <? q) eqn:E3.
+    { inversion Hs; subst s'; clear Hs. constructor; cbn; [exact Fs| | |exact Fgs].
+      - intros i p Hin. pose proof (Fl i p Hin). lia.
+      - intros g Hg. destruct (Fg g Hg) as (G1 & G2 & G3). split; [lia|]. split; [exact G2|exact G3]. }
+    destruct (refresh c <=? 0) eqn:E4; [apply Z.leb_le in E4; lia|].
+    inversion Hs; subst s'; clear Hs. constructor; cbn; [| | |exact Fgs].
+    + apply sorted_app_last; [exact Fs|exact Fl].
+    + intros i p Hin. apply in_app_or in Hin. destruct Hin as [Hin|[Hin|[]]].
+      * pose proof (Fl i p Hin). lia.
+      * inversion Hin. lia.
+    + intros g Hg. destruct (Fg g Hg) as (G1 & G2 & G3). split; [lia|]. split; [exact G2|].
+      intros j r Hin. apply in_app_or in Hin. destruct Hin as [Hin|[Hin|[]]].
+      * apply (G3 j r Hin).
+      * inversion Hin. subst. exact G1.
+  - destruct (queue s) as [|[i q] qs] eqn:Eq; [discriminate|]. destruct (ph s) eqn:Eph; [|discriminate].
+    unfold usize_sub in Hs. destruct (burst c <? rs (st s)) eqn:E1; [discriminate|]. cbn [bind] in Hs.
+    destruct (burst c - rs (st s) <? q) eqn:E2; [discriminate|].
+    unfold usize_add in Hs. destruct (rs (st s) + q >? usize_max) eqn:E3; [discriminate|]. cbn [bind] in Hs.
+    inversion Hs; subst s'; clear Hs. constructor; cbn; assumption.
+  - destruct (queue s) as [|[i q] qs] eqn:Eq; [discriminate|]. destruct (ph s) as [|need] eqn:Eph; [discriminate|].
+    destruct (deadline_reached c need (now s)) eqn:Ed; [|discriminate].
+    destruct (usize_add (rs (advance c (st s) need)) q) as [r|e|pp] eqn:Ea; cbn [bind] in Hs; try discriminate.
+    inversion Hs; subst s'; clear Hs. cbn [map fst] in Fs. inversion Fs as [|x l Fs' Ff]; subst.
+    constructor; cbn.
+    + exact Fs'.
+    + intros j p Hin. apply (Fl j p). right. exact Hin.
+    + intros g [Hg|Hg].
+      * subst g. unfold gid, gtime; cbn. split; [apply (Fl i q); left; reflexivity|]. split; [lia|].
+        intros j r0 Hin. rewrite Forall_forall in Ff. apply Ff. apply in_map_iff. exists (j, r0). split; [reflexivity|exact Hin].
+      * destruct (Fg g Hg) as (G1 & G2 & G3). split; [exact G1|]. split; [exact G2|].
+        intros j r0 Hin. apply (G3 j r0). right. exact Hin.
+    + constructor; [exact Fgs|]. apply Forall_forall. intros g Hg. destruct (Fg g Hg) as (G1 & G2 & G3).
+      unfold grant_order, gid, gtime; cbn. split; [apply (G3 i q); left; reflexivity|exact G2].
+  - destruct (queue s) as [|[h hp] qs] eqn:Eq.
+    { destruct (mem_nat id (blocked s)); [|discriminate]. inversion Hs; subst s'; clear Hs.
+      constructor; cbn; assumption. }
+    destruct (Nat.eqb h id) eqn:Eh.
+    { inversion Hs; subst s'; clear Hs. cbn [map fst] in Fs. inversion Fs as [|x l Fs' Ff]; subst.
+      constructor; cbn; [exact Fs'| | |exact Fgs].
+      - intros j p Hin. apply (Fl j p). right. exact Hin.
+      - intros g Hg. destruct (Fg g Hg) as (G1 & G2 & G3). split; [exact G1|]. split; [exact G2|].
+        intros j r Hin. apply (G3 j r). right. exact Hin. }
+    destruct (find_id id qs) eqn:Ef.
+    { inversion Hs; subst s'; clear Hs. constructor; cbn; [| | |exact Fgs].
+      - apply (sorted_remove id ((h, hp) :: qs)) in Fs. cbn [remove_id] in Fs. rewrite Eh in Fs. exact Fs.
+      - intros j p [Hin|Hin]; [apply (Fl j p); left; exact Hin|].
+        apply (Fl j p). right. eapply in_remove_id. exact Hin.
+      - intros g Hg. destruct (Fg g Hg) as (G1 & G2 & G3). split; [exact G1|]. split; [exact G2|].
+        intros j r [Hin|Hin]; [apply (G3 j r); left; exact Hin|].
+        apply (G3 j r). right. eapply in_remove_id. exact Hin. }
+    destruct (mem_nat id (blocked s)); [|discriminate]. inversion Hs; subst s'; clear Hs.
+    constructor; cbn; assumption.
+  - destruct (find_id id (held s)) as [q|] eqn:Ef; [|discriminate].
+    destruct (q =? 0).
+    { inversion Hs; subst s'; clear Hs. constructor; cbn; assumption. }
+    destruct (usize_sub (rs (advance c (st s) (ticks c (now s)))) q) as [r|e|pp]; cbn [bind] in Hs; try discriminate.
+    destruct (usize_sub (pm (advance c (st s) (ticks c (now s)))) q) as [m|e|pp]; cbn [bind] in Hs; try discriminate.
+    inversion Hs; subst s'; clear Hs. constructor; cbn; assumption.
+Qed.
+
+Lemma fifo_exec : forall c ls s s', cfg_ok c -> fifo_inv s -> exec c s ls = Ok s' -> fifo_inv s'.
+Proof.
+  induction ls as [|l ls IH]; intros s s' Hc F H; cbn [exec] in H.
+  - inversion H. subst. exact F.
+  - destruct (step c s l) as [s1|e|p] eqn:Es; [|eapply IH; eassumption|discriminate].
+    eapply IH; [exact Hc| |exact H]. eapply fifo_step; eassumption.
+Qed.
+
+(* Grants happen in the order in which the callers entered acquire(): in the grant log (newest first)
+   every older entry belongs to a call that began earlier, and carries a time stamp that is not later. *)
+Theorem fifo_order : forall c ls s, cfg_ok c -> exec c (init c) ls = Ok s ->
+  StronglySorted grant_order (grants s).
+Proof.
+  intros c ls s Hc H. apply (fi_gsorted s). eapply fifo_exec; [exact Hc|apply fifo_init|exact H].
+Qed.
+
+(* ... and a call that is still queued entered later than every call granted so far. *)
+Theorem fifo_no_overtaking : forall c ls s g j q, cfg_ok c -> exec c (init c) ls = Ok s ->
+  In g (grants s) -> In (j, q) (queue s) -> (gid g < j)%nat.
+Proof.
+  intros c ls s g j q Hc H Hg Hq.
+  pose proof (fifo_exec c ls (init c) s Hc (fifo_init c) H) as F.
+  destruct (fi_glt s F g Hg) as (_ & _ & G3). apply (G3 j q Hq).
+Qed.
+
+(* ------------------------------------------------------------------------- *)
+(* A cancelled wait consumes nothing *)
+
+Lemma cancel_step : forall c s id s', step c s (LCancel id) = Ok s' ->
+  st s' = st s /\ now s' = now s /\ held s' = held s /\ grants s' = grants s /\ drops s' = drops s /\
+  nextid s' = nextid s.
+Proof.
+  intros c s id s' Hs. cbn [step] in Hs.
+  destruct (queue s) as [|[h hp] qs].
+  { destruct (mem_nat id (blocked s)); [|discriminate]. inversion Hs; subst s'. cbn. repeat split. }
+  destruct (Nat.eqb h id); [inversion Hs; subst s'; cbn; repeat split|].
+  destruct (find_id id qs); [inversion Hs; subst s'; cbn; repeat split|].
+  destruct (mem_nat id (blocked s)); [|discriminate]. inversion Hs; subst s'. cbn. repeat split.
+Qed.
+
+Lemma find_id_none_above : forall id (q : list (nat * Z)), Forall (lt id) (map fst q) -> find_id id q = None.
+Proof.
+  induction q as [|[i r] q IH]; intros H; [reflexivity|]. cbn [map fst] in H. inversion H; subst.
+  cbn [find_id]. destruct (Nat.eqb i id) eqn:E; [apply Nat.eqb_eq in E; lia|]. apply IH. assumption.
+Qed.
+
+Lemma find_id_remove_sorted : forall id (q : list (nat * Z)),
+  StronglySorted lt (map fst q) -> find_id id (remove_id id q) = None.
+Proof.
+  induction q as [|[i r] q IH]; intros Hs; [reflexivity|]. cbn [map fst] in Hs.
+  inversion Hs as [|x l Hs' Hf]; subst. cbn [remove_id]. destruct (Nat.eqb i id) eqn:E.
+  - apply Nat.eqb_eq in E. subst. apply find_id_none_above. exact Hf.
+  - cbn [find_id]. rewrite E. apply IH. exact Hs'.
+Qed.
+
+Lemma find_id_remove_other : forall id j (q : list (nat * Z)), find_id id q = None -> find_id id (remove_id j q) = None.
+Proof.
+  induction q as [|[i r] q IH]; intros H; [reflexivity|]. cbn [find_id] in H. cbn [remove_id].
+  destruct (Nat.eqb i id) eqn:E; [discriminate|]. destruct (Nat.eqb i j); [exact H|].
+  cbn [find_id]. rewrite E. apply IH. exact H.
+Qed.
+
+Lemma find_id_app_none : forall id (q : list (nat * Z)) j p, find_id id q = None -> j <> id ->
+  find_id id (q ++ [(j, p)]) = None.
+Proof.
+  induction q as [|[i r] q IH]; intros j p H Hj; cbn [app find_id] in *.
+  - destruct (Nat.eqb j id) eqn:E; [apply Nat.eqb_eq in E; contradiction|reflexivity].
+  - destruct (Nat.eqb i id); [discriminate|]. apply IH; assumption.
+Qed.
+
+(* a call that is neither queued nor granted, with an id already allocated, is never granted *)
+Definition dead (id : nat) (s : sys) : Prop :=
+  (id < nextid s)%nat /\ find_id id (queue s) = None /\ ~ In id (map gid (grants s)).
+
+Lemma dead_step : forall c s l s' id, cfg_ok c -> dead id s -> step c s l = Ok s' -> dead id s'.
+Proof.
+  intros c s l s' id [Hb Hr] (D1 & D2 & D3) Hs.
+  destruct l as [d|q| | |id'|id']; cbn [step] in Hs.
+  - destruct ((d <? 0) || (nanos_max <=? now s + d - start c)); [discriminate|].
+    inversion Hs; subst s'. repeat split; assumption.
+  - destruct ((q <? 0) || (q >? usize_max)); [discriminate|].
+    destruct (burst c <? q). { inversion Hs; subst s'. repeat split; cbn; [lia|assumption|assumption]. }
+    destruct (refresh c <=? 0) eqn:E4; [apply Z.leb_le in E4; lia|].
+    inversion Hs; subst s'. repeat split; cbn; [lia| |assumption]. apply find_id_app_none; [exact D2|lia].
+  - destruct (queue s) as [|[i q] qs] eqn:Eq; [discriminate|]. destruct (ph s); [|discriminate].
+    destruct (usize_sub (burst c) (rs (st s))) as [f|e|pp]; cbn [bind] in Hs; try discriminate.
+    destruct (f <? q); [discriminate|].
+    destruct (usize_add (rs (st s)) q) as [w|e|pp]; cbn [bind] in Hs; try discriminate.
+    inversion Hs; subst s'. repeat split; cbn; assumption.
+  - destruct (queue s) as [|[i q] qs] eqn:Eq; [discriminate|]. destruct (ph s) as [|need]; [discriminate|].
+    destruct (deadline_reached c need (now s)); [|discriminate].
+    destruct (usize_add (rs (advance c (st s) need)) q) as [r|e|pp]; cbn [bind] in Hs; try discriminate.
+    inversion Hs; subst s'. cbn [find_id] in D2. destruct (Nat.eqb i id) eqn:E; [discriminate|].
+    repeat split; cbn; [assumption|assumption|]. intros [H|H]; [|contradiction].
+    unfold gid in H; cbn in H. subst. rewrite Nat.eqb_refl in E. discriminate.
+  - destruct (queue s) as [|[h hp] qs] eqn:Eq.
+    { destruct (mem_nat id' (blocked s)); [|discriminate]. inversion Hs; subst s'. repeat split; cbn; assumption. }
+    cbn [find_id] in D2. destruct (Nat.eqb h id) eqn:Eh; [discriminate|].
+    destruct (Nat.eqb h id'). { inversion Hs; subst s'. repeat split; cbn; assumption. }
+    destruct (find_id id' qs).
+    { inversion Hs; subst s'. repeat split; cbn; [assumption| |assumption]. rewrite Eh.
+      apply find_id_remove_other. exact D2. }
+    destruct (mem_nat id' (blocked s)); [|discriminate]. inversion Hs; subst s'. repeat split; cbn; try assumption.
+    rewrite Eh. exact D2.
+  - destruct (find_id id' (held s)) as [q|]; [|discriminate]. destruct (q =? 0).
+    { inversion Hs; subst s'. repeat split; cbn; assumption. }
+    destruct (usize_sub (rs (advance c (st s) (ticks c (now s)))) q) as [r|e|pp]; cbn [bind] in Hs; try discriminate.
+    destruct (usize_sub (pm (advance c (st s) (ticks c (now s)))) q) as [m|e|pp]; cbn [bind] in Hs; try discriminate.
+    inversion Hs; subst s'. repeat split; cbn; assumption.
+Qed.
+
+Lemma dead_exec : forall c ls s s' id, cfg_ok c -> dead id s -> exec c s ls = Ok s' -> dead id s'.
+Proof.
+  induction ls as [|l ls IH]; intros s s' id Hc D H; cbn [exec] in H.
+  - inversion H. subst. exact D.
+  - destruct (step c s l) as [s1|e|p] eqn:Es; [|eapply IH; eassumption|discriminate].
+    eapply IH; [exact Hc| |exact H]. eapply dead_step; eassumption.
+Qed.
+
+Lemma find_id_some_in : forall id (q : list (nat * Z)) p, In (id, p) q -> find_id id q <> None.
+Proof.
+  induction q as [|[i r] q IH]; intros p Hin; [destruct Hin|]. destruct Hin as [H|H]; cbn [find_id].
+  - inversion H. subst. rewrite Nat.eqb_refl. discriminate.
+  - destruct (Nat.eqb i id); [discriminate|]. eapply IH. exact H.
+Qed.
+
+Theorem cancel_consumes_nothing : forall c ls s id s', cfg_ok c ->
+  exec c (init c) ls = Ok s -> step c s (LCancel id) = Ok s' ->
+  (* nothing is consumed or reserved *)
+  st s' = st s /\ held s' = held s /\ grants s' = grants s /\ drops s' = drops s /\ now s' = now s /\
+  (* and a cancelled waiter is never served later *)
+  (find_id id (queue s) <> None ->
+   forall ls' s'', exec c s' ls' = Ok s'' -> ~ In id (map gid (grants s''))).
+Proof.
+  intros c ls s id s' Hc H Hs.
+  destruct (cancel_step c s id s' Hs) as (C1 & C2 & C3 & C4 & C5 & C6).
+  repeat split; try assumption.
+  intros Hq ls' s'' H'.
+  pose proof (fifo_exec c ls (init c) s Hc (fifo_init c) H) as [Fs Fl Fg Fgs].
+  assert (D : dead id s').
+  { unfold dead. rewrite C6, C4.
+    destruct (find_id id (queue s)) as [p|] eqn:Ef; [|contradiction]. clear Hq.
+    pose proof (find_id_in _ _ _ Ef) as Hin.
+    split; [apply (Fl id p Hin)|]. split.
+    - cbn [step] in Hs. destruct (queue s) as [|[h hp] qs] eqn:Eq; [discriminate|].
+      cbn [find_id] in Ef. destruct (Nat.eqb h id) eqn:Eh.
+      + inversion Hs; subst s'. cbn. apply Nat.eqb_eq in Eh. subst h.
+        cbn [map fst] in Fs. inversion Fs; subst. apply find_id_none_above. assumption.
+      + rewrite Ef in Hs. inversion Hs; subst s'. cbn [queue find_id]. rewrite Eh.
+        apply find_id_remove_sorted. cbn [map fst] in Fs. inversion Fs; subst. assumption.
+    - intros Hg. apply in_map_iff in Hg. destruct Hg as [g [Hg1 Hg2]].
+      destruct (Fg g Hg2) as (_ & _ & G3). pose proof (G3 id p Hin). lia. }
+  destruct (dead_exec c ls' s' s'' id Hc D H') as (_ & _ & D3). exact D3.
+Qed.
+
+(* ------------------------------------------------------------------------- *)
+(* Scripts (the deterministic schedule the harness runs) are runs of the step relation,
+   and [settle] reaches quiescence. *)
+
+Lemma run_ops_exec : forall c os s, run_ops c s os = exec c s (script_labels c s os).
+Proof.
+  induction os as [|o os IH]; intros s; cbn [run_ops script_labels]; [reflexivity|].
+  unfold do_op. destruct (step c s (op_label o)) as [s1|e|p] eqn:Es.
+  - unfold settle.
+    destruct (exec c s1 (settle_labels c (settle_fuel s1) s1)) as [s2|e|p] eqn:Ex.
+    + cbn [bind exec]. rewrite Es. rewrite (exec_app c _ _ s1 s2 Ex). apply IH.
+    + exfalso. eapply exec_not_err. exact Ex.
+    + cbn [bind exec]. rewrite Es. symmetry. exact Ex.
+  - cbn [bind]. apply IH.
+  - cbn [bind exec]. rewrite Es. reflexivity.
+Qed.
+
+Definition mu (s : sys) : nat :=
+  (2 * length (queue s) + match ph s with PWait => 1 | PSleep _ => 0 end)%nat.
+
+Lemma mu_wait : forall c s s', step c s LWait = Ok s' -> (mu s' < mu s)%nat.
+Proof.
+  intros c s s' Hs. cbn [step] in Hs. unfold mu.
+  destruct (queue s) as [|[i q] qs] eqn:Eq; [discriminate|]. destruct (ph s) eqn:Eph; [|discriminate].
+  destruct (usize_sub (burst c) (rs (st s))) as [f|e|pp]; cbn [bind] in Hs; try discriminate.
+  destruct (f <? q); [discriminate|].
+  destruct (usize_add (rs (st s)) q) as [w|e|pp]; cbn [bind] in Hs; try discriminate.
+  inversion Hs; subst s'. cbn. lia.
+Qed.
+
+Lemma mu_grant : forall c s s', step c s LGrant = Ok s' -> (mu s' < mu s)%nat.
+Proof.
+  intros c s s' Hs. cbn [step] in Hs. unfold mu.
+  destruct (queue s) as [|[i q] qs] eqn:Eq; [discriminate|]. destruct (ph s) as [|need] eqn:Eph; [discriminate|].
+  destruct (deadline_reached c need (now s)); [|discriminate].
+  destruct (usize_add (rs (advance c (st s) need)) q) as [r|e|pp]; cbn [bind] in Hs; try discriminate.
+  inversion Hs; subst s'. cbn [queue ph length]. lia.
+Qed.
+
+Definition quiescent (c : cfg) (s : sys) : Prop :=
+  step c s LWait = Err tt /\ step c s LGrant = Err tt.
+
+Lemma settle_labels_quiescent : forall c fuel s s', (mu s < fuel)%nat ->
+  exec c s (settle_labels c fuel s) = Ok s' -> quiescent c s'.
+Proof.
+  induction fuel as [|f IH]; intros s s' Hm H; [lia|]. cbn [settle_labels] in H.
+  destruct (step c s LWait) as [s1|[]|p] eqn:E1.
+  - cbn [exec] in H. rewrite E1 in H. apply (IH s1 s'); [|exact H]. pose proof (mu_wait c s s1 E1). lia.
+  - destruct (step c s LGrant) as [s2|[]|p] eqn:E2.
+    + cbn [exec] in H. rewrite E2 in H. apply (IH s2 s'); [|exact H]. pose proof (mu_grant c s s2 E2). lia.
+    + cbn [exec] in H. inversion H. subst. split; assumption.
+    + cbn [exec] in H. rewrite E2 in H. discriminate.
+  - cbn [exec] in H. rewrite E1 in H. discriminate.
+Qed.
+
+(* the fuel of [settle] suffices: afterwards no internal step is enabled *)
+Theorem settle_quiescent : forall c s s', settle c s = Ok s' -> quiescent c s'.
+Proof.
+  intros c s s' H. unfold settle in H. eapply settle_labels_quiescent; [|exact H].
+  unfold mu, settle_fuel. destruct (ph s); lia.
+Qed.
+
+(* Every script is a run; hence all the theorems above hold for scripts. *)
+Theorem script_window_bound : forall c os s t1 t2, cfg_ok c -> run_ops c (init c) os = Ok s ->
+  start c <= t1 <= t2 ->
+  sum_window (grants s) t1 t2 <= burst c + (t2 - t1) / refresh c + 1 /\
+  sum_window (drops s) t1 t2 <= burst c + (t2 - t1) / refresh c + 1.
+Proof.
+  intros c os s t1 t2 Hc H Ht. rewrite run_ops_exec in H. split.
+  - eapply window_bound; eassumption.
+  - eapply consume_window_bound; eassumption.
+Qed.
+
+Theorem script_no_panic : forall c os p, cfg_ok c -> run_ops c (init c) os <> Panic p.
+Proof.
+  intros c os p Hc. rewrite run_ops_exec. apply exec_no_panic; [exact Hc|apply inv_init; exact Hc].
+Qed.
+
+(* ------------------------------------------------------------------------- *)
+(* Permit per OPEN: the StreamQueue model *)
+
+Definition ones (s : sys) : Prop :=
+  all_p (eq 1) (queue s) /\ all_p (eq 1) (held s) /\ forall g, In g (drops s) -> snd g = 1.
+
+Lemma drops_step : forall c s l s', step c s l = Ok s' ->
+  drops s' = drops s \/
+  exists id p, l = LDrop id /\ find_id id (held s) = Some p /\ drops s' = (id, now s, p) :: drops s.
+Proof.
+  intros c s l s' Hs. destruct l as [d|q| | |id|id]; cbn [step] in Hs.
+  - destruct ((d <? 0) || (nanos_max <=? now s + d - start c)); [discriminate|]. inversion Hs; try subst s'. left. reflexivity.
+  - destruct ((q <? 0) || (q >? usize_max)); [discriminate|].
+    destruct (burst c <? q); [inversion Hs; try subst s'; left; reflexivity|].
+    destruct (refresh c <=? 0); inversion Hs; try subst s'; left; reflexivity.
+  - destruct (queue s) as [|[i q] qs]; [discriminate|]. destruct (ph s); [|discriminate].
+    destruct (usize_sub (burst c) (rs (st s))) as [f|e|pp]; cbn [bind] in Hs; try discriminate.
+    destruct (f <? q); [discriminate|].
+    destruct (usize_add (rs (st s)) q) as [w|e|pp]; cbn [bind] in Hs; try discriminate.
+    inversion Hs; try subst s'. left. reflexivity.
+  - destruct (queue s) as [|[i q] qs]; [discriminate|]. destruct (ph s) as [|need]; [discriminate|].
+    destruct (deadline_reached c need (now s)); [|discriminate].
+    destruct (usize_add (rs (advance c (st s) need)) q) as [r|e|pp]; cbn [bind] in Hs; try discriminate.
+    inversion Hs; try subst s'. left. reflexivity.
+  - destruct (queue s) as [|[h hp] qs].
+    { destruct (mem_nat id (blocked s)); [|discriminate]. inversion Hs; try subst s'. left. reflexivity. }
+    destruct (Nat.eqb h id); [inversion Hs; try subst s'; left; reflexivity|].
+    destruct (find_id id qs); [inversion Hs; try subst s'; left; reflexivity|].
+    destruct (mem_nat id (blocked s)); [|discriminate]. inversion Hs; try subst s'. left. reflexivity.
+  - destruct (find_id id (held s)) as [q|] eqn:Ef; [|discriminate]. destruct (q =? 0).
+    { inversion Hs; try subst s'. left. reflexivity. }
+    destruct (usize_sub (rs (advance c (st s) (ticks c (now s)))) q) as [r|e|pp]; cbn [bind] in Hs; try discriminate.
+    destruct (usize_sub (pm (advance c (st s) (ticks c (now s)))) q) as [m|e|pp]; cbn [bind] in Hs; try discriminate.
+    inversion Hs; try subst s'. right. exists id, q. cbn. repeat split. exact Ef.
+Qed.
+
+Lemma ones_step : forall c s l s', cfg_ok c -> ones s -> step c s l = Ok s' ->
+  (forall p, l = LBegin p -> p = 1) -> ones s'.
+Proof.
+  intros c s l s' [Hb Hr] (O1 & O2 & O3) Hs Hl.
+  assert (O3' : forall g, In g (drops s') -> snd g = 1).
+  { destruct (drops_step c s l s' Hs) as [E|(id & p & _ & Ef & E)]; rewrite E; [exact O3|].
+    intros g [Hg|Hg]; [|apply O3; exact Hg]. subst g. cbn. symmetry. apply (O2 id p). apply find_id_in. exact Ef. }
+  split; [|split; [|exact O3']]; clear O3'.
+  - destruct l as [d|q| | |id|id]; cbn [step] in Hs.
+    + destruct ((d <? 0) || (nanos_max <=? now s + d - start c)); [discriminate|]. inversion Hs; try subst s'. exact O1.
+    + destruct ((q <? 0) || (q >? usize_max)); [discriminate|].
+      destruct (burst c <? q); [inversion Hs; try subst s'; exact O1|].
+      destruct (refresh c <=? 0) eqn:E4; [apply Z.leb_le in E4; lia|]. inversion Hs; try subst s'. cbn.
+      apply all_p_app; [exact O1|]. intros i p [Hin|[]]. inversion Hin. subst. symmetry. apply Hl. reflexivity.
+    + destruct (queue s) as [|[i q] qs] eqn:Eq; [discriminate|]. destruct (ph s); [|discriminate].
+      destruct (usize_sub (burst c) (rs (st s))) as [f|e|pp]; cbn [bind] in Hs; try discriminate.
+      destruct (f <? q); [discriminate|].
+      destruct (usize_add (rs (st s)) q) as [w|e|pp]; cbn [bind] in Hs; try discriminate.
+      inversion Hs; try subst s'. cbn. exact O1.
+    + destruct (queue s) as [|[i q] qs] eqn:Eq; [discriminate|]. destruct (ph s) as [|need]; [discriminate|].
+      destruct (deadline_reached c need (now s)); [|discriminate].
+      destruct (usize_add (rs (advance c (st s) need)) q) as [r|e|pp]; cbn [bind] in Hs; try discriminate.
+      inversion Hs; try subst s'. cbn. eapply all_p_tail. exact O1.
+    + destruct (queue s) as [|[h hp] qs] eqn:Eq.
+      { destruct (mem_nat id (blocked s)); [|discriminate]. inversion Hs; try subst s'. cbn. exact O1. }
+      destruct (Nat.eqb h id); [inversion Hs; try subst s'; cbn; eapply all_p_tail; exact O1|].
+      destruct (find_id id qs).
+      { inversion Hs; try subst s'. cbn. intros j p [Hin|Hin]; [apply (O1 j p); left; exact Hin|].
+        apply (O1 j p). right. eapply in_remove_id. exact Hin. }
+      destruct (mem_nat id (blocked s)); [|discriminate]. inversion Hs; try subst s'. cbn. exact O1.
+    + destruct (find_id id (held s)) as [q|]; [|discriminate]. destruct (q =? 0); [inversion Hs; try subst s'; exact O1|].
+      destruct (usize_sub (rs (advance c (st s) (ticks c (now s)))) q) as [r|e|pp]; cbn [bind] in Hs; try discriminate.
+      destruct (usize_sub (pm (advance c (st s) (ticks c (now s)))) q) as [m|e|pp]; cbn [bind] in Hs; try discriminate.
+      inversion Hs; try subst s'. exact O1.
+  - destruct l as [d|q| | |id|id]; cbn [step] in Hs.
+    + destruct ((d <? 0) || (nanos_max <=? now s + d - start c)); [discriminate|]. inversion Hs; try subst s'. exact O2.
+    + destruct ((q <? 0) || (q >? usize_max)); [discriminate|].
+      destruct (burst c <? q); [inversion Hs; try subst s'; exact O2|].
+      destruct (refresh c <=? 0) eqn:E4; [apply Z.leb_le in E4; lia|]. inversion Hs; try subst s'. exact O2.
+    + destruct (queue s) as [|[i q] qs] eqn:Eq; [discriminate|]. destruct (ph s); [|discriminate].
+      destruct (usize_sub (burst c) (rs (st s))) as [f|e|pp]; cbn [bind] in Hs; try discriminate.
+      destruct (f <? q); [discriminate|].
+      destruct (usize_add (rs (st s)) q) as [w|e|pp]; cbn [bind] in Hs; try discriminate.
+      inversion Hs; try subst s'. exact O2.
+    + destruct (queue s) as [|[i q] qs] eqn:Eq; [discriminate|]. destruct (ph s) as [|need]; [discriminate|].
+      destruct (deadline_reached c need (now s)); [|discriminate].
+      destruct (usize_add (rs (advance c (st s) need)) q) as [r|e|pp]; cbn [bind] in Hs; try discriminate.
+      inversion Hs; try subst s'. cbn. intros j p [Hin|Hin]; [|apply (O2 j p Hin)]. inversion Hin. subst.
+      apply (O1 j p). left. reflexivity.
+    + destruct (queue s) as [|[h hp] qs] eqn:Eq.
+      { destruct (mem_nat id (blocked s)); [|discriminate]. inversion Hs; try subst s'. exact O2. }
+      destruct (Nat.eqb h id); [inversion Hs; try subst s'; exact O2|].
+      destruct (find_id id qs); [inversion Hs; try subst s'; exact O2|].
+      destruct (mem_nat id (blocked s)); [|discriminate]. inversion Hs; try subst s'. exact O2.
+    + destruct (find_id id (held s)) as [q|]; [|discriminate]. destruct (q =? 0).
+      { inversion Hs; try subst s'. cbn. apply all_p_remove. exact O2. }
+      destruct (usize_sub (rs (advance c (st s) (ticks c (now s)))) q) as [r|e|pp]; cbn [bind] in Hs; try discriminate.
+      destruct (usize_sub (pm (advance c (st s) (ticks c (now s)))) q) as [m|e|pp]; cbn [bind] in Hs; try discriminate.
+      inversion Hs; try subst s'. cbn. apply all_p_remove. exact O2.
+Qed.
+
+(* OPEN frames in the closed window [t1, t2] *)
+Fixpoint count_window (o : list (nat * Z)) (t1 t2 : Z) : Z :=
+  match o with
+  | [] => 0
+  | (_, t) :: o' => (if (t1 <=? t) && (t <=? t2) then 1 else 0) + count_window o' t1 t2
+  end.
+
+Lemma count_window_sum : forall (o : list (nat * Z)) (d : tlog) t1 t2,
+  map snd o = map gtime d -> (forall g, In g d -> snd g = 1) ->
+  count_window o t1 t2 = sum_window d t1 t2.
+Proof.
+  induction o as [|[i t] o IH]; intros d t1 t2 Hm H1; destruct d as [|[[j u] p] d]; try discriminate.
+  - reflexivity.
+  - cbn [map snd gtime] in Hm. unfold gtime in Hm. cbn in Hm. inversion Hm. subst u.
+    cbn [count_window sum_window]. rewrite (IH d t1 t2); [| |].
+    + assert (p = 1) by (apply (H1 (j, t, p)); left; reflexivity). subst p. reflexivity.
+    + assumption.
+    + intros g Hg. apply H1. right. exact Hg.
+Qed.
+
+Record rinv (c : cfg) (s : rsys) : Prop := {
+  ri_run : exists ls, exec c (init c) ls = Ok (lim s);
+  ri_ones : ones (lim s);
+  ri_opens : map snd (opens s) = map gtime (drops (lim s))
+}.
+
+Lemma exec_snoc : forall c ls s s1 l s2, exec c s ls = Ok s1 -> step c s1 l = Ok s2 -> exec c s (ls ++ [l]) = Ok s2.
+Proof.
+  intros c ls s s1 l s2 H1 H2. rewrite (exec_app c ls [l] s s1 H1). cbn [exec]. rewrite H2. reflexivity.
+Qed.
+
+Lemma rinv_init : forall c n, rinv c (rinit c n).
+Proof.
+  intros c n. constructor; cbn.
+  - exists []. reflexivity.
+  - unfold ones; cbn. split; [intros ? ? []|split; [intros ? ? []|intros ? []]].
+  - reflexivity.
+Qed.
+
+Lemma length_set_nth : forall A i (x : A) l, length (set_nth i x l) = length l.
+Proof. induction i as [|i IH]; intros x l; destruct l; cbn; try reflexivity. rewrite IH. reflexivity. Qed.
+
+Lemma rstep_rinv : forall c s l s', cfg_ok c -> rinv c s -> rstep c s l = Ok s' ->
+  rinv c s' /\ length (streams s') = length (streams s).
+Proof.
+  intros c s l s' Hc [[ls Hrun] Hones Hop] Hs.
+  destruct l as [l0|i|i|i|i]; cbn [rstep] in Hs.
+  - assert (Hl0 : forall p, l0 <> LBegin p /\ forall id, l0 <> LDrop id).
+    { intros p. destruct l0; try discriminate; split; intros; discriminate. }
+    destruct l0 as [d|q| | |id|id]; try discriminate;
+      (destruct (step c (lim s) _) as [x|e|pp] eqn:Ex; cbn [bind] in Hs; try discriminate;
+       inversion Hs; subst s'; clear Hs; cbn; split; [|reflexivity]; constructor; cbn;
+       [eexists; eapply exec_snoc; eassumption
+       |eapply ones_step; [exact Hc|exact Hones|exact Ex|intros p Hp; discriminate]
+       |destruct (drops_step c _ _ _ Ex) as [E|(id & p & El & _)]; [rewrite E; exact Hop|discriminate]]).
+  - destruct (nth_error (streams s) i) as [[| |]|]; try discriminate.
+    destruct (step c (lim s) (LBegin 1)) as [x|e|pp] eqn:Ex; cbn [bind] in Hs; try discriminate.
+    inversion Hs; subst s'; clear Hs; cbn. split; [|apply length_set_nth]. constructor; cbn.
+    + eexists. eapply exec_snoc; eassumption.
+    + eapply ones_step; [exact Hc|exact Hones|exact Ex|]. intros p Hp. inversion Hp. reflexivity.
+    + destruct (drops_step c _ _ _ Ex) as [E|(id & p & El & _)]; [rewrite E; exact Hop|discriminate].
+  - destruct (nth_error (streams s) i) as [[|id|]|]; try discriminate.
+    destruct (find_id id (held (lim s))) as [p|] eqn:Ef; [|discriminate].
+    destruct (step c (lim s) (LDrop id)) as [x|e|pp] eqn:Ex; cbn [bind] in Hs; try discriminate.
+    inversion Hs; subst s'; clear Hs; cbn. split; [|apply length_set_nth]. constructor; cbn.
+    + eexists. eapply exec_snoc; eassumption.
+    + eapply ones_step; [exact Hc|exact Hones|exact Ex|intros q Hq; discriminate].
+    + (* the permit has exactly one unit, so the drop is logged at this very instant *)
+      destruct Hones as (_ & O2 & _). assert (p = 1) by (symmetry; apply (O2 id p), find_id_in, Ef). subst p.
+      cbn [step] in Ex. rewrite Ef in Ex. cbn in Ex.
+      destruct (usize_sub (rs (advance c (st (lim s)) (ticks c (now (lim s))))) 1) as [r|e|pp]; cbn [bind] in Ex; try discriminate.
+      destruct (usize_sub (pm (advance c (st (lim s)) (ticks c (now (lim s))))) 1) as [m|e|pp]; cbn [bind] in Ex; try discriminate.
+      inversion Ex. cbn. unfold gtime at 1. cbn. f_equal. exact Hop.
+  - destruct (nth_error (streams s) i) as [[| |]|]; try discriminate.
+    inversion Hs; subst s'; clear Hs; cbn. split; [|apply length_set_nth]. constructor; cbn.
+    + exists ls. exact Hrun.
+    + exact Hones.
+    + exact Hop.
+  - destruct (nth_error (streams s) i) as [[|id|]|]; try discriminate.
+    destruct (step c (lim s) (LCancel id)) as [x|e|pp] eqn:Ex; cbn [bind] in Hs; try discriminate.
+    inversion Hs; subst s'; clear Hs; cbn. split; [|apply length_set_nth]. constructor; cbn.
+    + eexists. eapply exec_snoc; eassumption.
+    + eapply ones_step; [exact Hc|exact Hones|exact Ex|intros q Hq; discriminate].
+    + destruct (drops_step c _ _ _ Ex) as [E|(id' & p & El & _)]; [rewrite E; exact Hop|discriminate].
+Qed.
+
+Lemma rexec_rinv : forall c ls s s', cfg_ok c -> rinv c s -> rexec c s ls = Ok s' ->
+  rinv c s' /\ length (streams s') = length (streams s).
+Proof.
+  induction ls as [|l ls IH]; intros s s' Hc R H; cbn [rexec] in H.
+  - inversion H. subst. split; [exact R|reflexivity].
+  - destruct (rstep c s l) as [s1|e|p] eqn:Es; [|eapply IH; eassumption|discriminate].
+    destruct (rstep_rinv c s l s1 Hc R Es) as [R1 L1].
+    destruct (IH s1 s' Hc R1 H) as [R2 L2]. split; [exact R2|]. rewrite L2. exact L1.
+Qed.
+
+Lemma n_open_le : forall s, (n_open s <= length (streams s))%nat.
+Proof.
+  intros s. unfold n_open. induction (streams s) as [|x l IH]; cbn [filter length]; [lia|].
+  destruct x; cbn [length]; lia.
+Qed.
+
+(* Per connection and capability: the OPEN frames a node sends (= calls it starts serving, one
+   per OPEN) in any window stay within the rate, and the calls served concurrently within the
+   number [n] of reusable streams (= min(local, peer) INFLIGHT by C14 open_streams_bounded),
+   whatever the remote side and the application do (any label sequence). *)
+Theorem rpc_rate_bound : forall c n ls s t1 t2, cfg_ok c -> rexec c (rinit c n) ls = Ok s ->
+  start c <= t1 <= t2 ->
+  count_window (opens s) t1 t2 <= burst c + (t2 - t1) / refresh c + 1 /\ (n_open s <= n)%nat.
+Proof.
+  intros c n ls s t1 t2 Hc H Ht.
+  destruct (rexec_rinv c ls (rinit c n) s Hc (rinv_init c n) H) as [[[ls0 Hrun] (O1 & O2 & O3) Hop] Hlen].
+  split.
+  - rewrite (count_window_sum (opens s) (drops (lim s)) t1 t2 Hop O3).
+    eapply consume_window_bound; eassumption.
+  - pose proof (n_open_le s). rewrite Hlen in H0. cbn in H0. rewrite repeat_length in H0. exact H0.
+Qed.
+
+Theorem rpc_no_panic : forall c n ls p, cfg_ok c -> rexec c (rinit c n) ls <> Panic p.
+Proof.
+  intros c n ls p Hc. assert (G : forall ls s, rinv c s -> rexec c s ls <> Panic p).
+  { induction ls0 as [|l ls0 IH]; intros s R H; cbn [rexec] in H; [discriminate|].
+    destruct (rstep c s l) as [s1|e|q] eqn:Es.
+    - eapply IH; [|exact H]. eapply rstep_rinv; eassumption.
+    - eapply IH; eassumption.
+    - destruct R as [[lsr Hrun] _ _].
+      pose proof (exec_inv c lsr (init c) (lim s) Hc (inv_init c Hc) Hrun) as I.
+      assert (P : forall l0 x, step c (lim s) l0 = x -> forall pp, x <> Panic pp).
+      { intros l0 x Hx pp. subst x. apply step_no_panic; assumption. }
+      destruct l as [l0|i|i|i|i]; cbn [rstep] in Es.
+      + destruct l0; try discriminate;
+          (destruct (step c (lim s) _) as [x|e|pp] eqn:Ex; cbn [bind] in Es; try discriminate;
+           eapply (P _ _ Ex); reflexivity).
+      + destruct (nth_error (streams s) i) as [[| |]|]; try discriminate.
+        destruct (step c (lim s) (LBegin 1)) as [x|e|pp] eqn:Ex; cbn [bind] in Es; try discriminate.
+        eapply (P _ _ Ex); reflexivity.
+      + destruct (nth_error (streams s) i) as [[|id|]|]; try discriminate.
+        destruct (find_id id (held (lim s))); [|discriminate].
+        destruct (step c (lim s) (LDrop id)) as [x|e|pp] eqn:Ex; cbn [bind] in Es; try discriminate.
+        eapply (P _ _ Ex); reflexivity.
+      + destruct (nth_error (streams s) i) as [[| |]|]; discriminate.
+      + destruct (nth_error (streams s) i) as [[|id|]|]; try discriminate.
+        destruct (step c (lim s) (LCancel id)) as [x|e|pp] eqn:Ex; cbn [bind] in Es; try discriminate.
+        eapply (P _ _ Ex); reflexivity. }
+  apply G. apply rinv_init.
 Qed.
